@@ -850,9 +850,10 @@ static int _parse_inline(qaconf_t *qaconf, FILE *fp, uint8_t flags,
                             }
                         } else if (argtype == 3) {
                             // bool type
-                            if (_is_str_bool(cbdata->argv[j]) != 0) {
-                                // Change argument to "1".
-                                strcpy(cbdata->argv[j], "1");
+                            int boolval = _is_str_bool(cbdata->argv[j]);
+                            if (boolval >= 0) {
+                                // Change argument to "1" or "0".
+                                strcpy(cbdata->argv[j], (boolval > 0) ? "1" : "0");
                             } else {
                                 EXITLOOP(
                                         "%dth argument of '%s' must be bool type.",
@@ -1019,7 +1020,15 @@ static int _is_str_bool(const char *s) {
         return 1;
     else if (!strcasecmp(s, "1"))
         return 1;
-    return 0;
+    else if (!strcasecmp(s, "false"))
+        return 0;
+    else if (!strcasecmp(s, "off"))
+        return 0;
+    else if (!strcasecmp(s, "no"))
+        return 0;
+    else if (!strcasecmp(s, "0"))
+        return 0;
+    return -1;
 }
 
 #endif /* _DOXYGEN_SKIP */
